@@ -1,4 +1,5 @@
 import Astria.Mempool.Theorems
+import Astria.Mempool.PromoTotal
 /-
   C13 — Mempool keeps nonce order and never duplicates or silently loses a transaction.
 
@@ -59,10 +60,10 @@ theorem C13_one_place (cfg : Cfg) (hc : 0 < cfg.cacheMax) (ops : List Op)
     ∧ (∀ i, status s i = some .parked ↔ ∃ t ∈ s.park, t.id = i)
     ∧ len s = s.pend.length + s.park.length := by
   intro s
-  have h := (inv_reachable cfg hc ops hv).track
+  have h : Track s [] [] := (inv_reachable cfg hc ops hv).track
   refine ⟨fun i => ?_, fun i => (tracked_counts h i).2, status_pending_iff h, status_parked_iff h,
     len_eq h⟩
-  have hc := tracked_counts h i
+  have hcnt := tracked_counts h i
   rw [← List.count_pos_iff]
   omega
 
@@ -96,7 +97,8 @@ theorem C13_no_silent_loss_partial (cfg : Cfg) (hc : 0 < cfg.cacheMax) (ops : Li
       | some r => exact ⟨r, by simp⟩
       | none =>
         rw [List.lookup_eq_none_iff] at hl
-        exact absurd (by simpa using hei) (hl e he)
+        have := hl e he
+        simp [hei] at this
 
 /-- **The code as it is does lose a transaction silently.** Parked container at its limit of 1
     (account 0, nonce 1); account 1 has a ready transaction of cost 5; its balance drops to 1;
@@ -166,6 +168,22 @@ theorem C13_no_silent_loss_fixed (cfg : Cfg) (hc : 0 < cfg.cacheMax)
   · exact Or.inr (Or.inr (Or.inl h1))
   · rw [hd] at h1; cases h1
   · exact Or.inr (Or.inr (Or.inr h1))
+
+/-- **Only a failed demotion can drop an id.** The other branch of `run_maintenance` that
+    un-tracks an id without a reason — "failed to promote transaction during maintenance" — is
+    dead: in every reachable state (indeed in every state with ordered containers whose ready
+    queues are covered, which includes the states in the middle of a maintenance run), when an
+    account has nothing to demote, its maintenance step drops nothing, whatever the chain state,
+    fee table and re-costing. -/
+theorem C13_maintenance_promotion_total (cfg : Cfg) (hc : 0 < cfg.cacheMax) (ops : List Op)
+    (hv : ValidSeq (init cfg) ops) (c : Chain) (recost : Bool) (results : List (Nat × Nat))
+    (height a : Nat) :
+    let s := run (init cfg) ops
+    (maintainPrep c recost results height s a).2.1 = [] →
+      (maintainAcct c recost results height (s, []) a).1.dropped = s.dropped := by
+  intro s hnd
+  have h := inv_reachable cfg hc ops hv
+  exact maintenance_promotion_total c recost results height s a h.shape h.afford hnd
 
 /-- **Ready nonces are consecutive from the account nonce last shown.** For every ready
     transaction, every nonce between the account nonce last shown to the mempool and the
@@ -272,7 +290,7 @@ private def exOps : List Op :=
     .insert { id := 2, acct := 1, nonce := 0, group := 4, costs := [(0, 60)], feeAsset := some 0 } 0 (exBal 50),
     .insert { id := 3, acct := 0, nonce := 2, group := 4, costs := [(0, 70)], feeAsset := some 0 } 0 (exBal 100),
     .advance 5,
-    .maintain (exChain 1 15) true [(1, 0)] 11 [1, 0],
+    .maintain (exChain 1 15) false [(1, 0)] 11 [1, 0],
     .removeInvalid 0 2 3 (.failedExec 1),
     .uncache 3 ]
 
@@ -283,7 +301,16 @@ example : C13_validB (init { parkedMax := 4 }) exOps = true := by decide
 
 example :
     let s := run (init { parkedMax := 4 }) exOps
-    s.pend.map (·.id) = [0] ∧ s.park.map (·.id) = [2] ∧ (sorry : Prop) := by
-  sorry
+    s.pend.map (·.id) = [0] ∧ s.park.map (·.id) = [2] ∧ s.accepted = [3, 2, 1, 0]
+      ∧ status s 0 = some .pending ∧ status s 2 = some .parked
+      ∧ status s 1 = some (.removed (.included 11 0)) ∧ status s 3 = none ∧ s.acked = [3]
+      ∧ s.dropped = [] ∧ (builderQueue s).map (·.id) = [0] := by
+  decide
+
+/-- … and just before the invalid-removal, id 3 sits in parked because maintenance demoted it. -/
+example :
+    let s := run (init { parkedMax := 4 }) (exOps.take 6)
+    s.pend.map (·.id) = [0] ∧ s.park.map (·.id) = [3, 2] := by
+  decide
 
 end Astria
